@@ -82,6 +82,7 @@ void run_C10(vh::Ctx& c) {
     static const double tinis[] = {0.0, 0.5, -0.5, 1000.0};
     Model m;
     m.P = gen_params(r, fam, tinis[r.pick(4)]);
+    if (fam == MANUFACTURED && r.coin(0.5)) { m.P.kappa = r.uni(0.3, 1.0) * r.sign(); c.count("state_dependent_sources"); }
     std::unique_ptr<Problem> p(new Problem(m.P));
     Settings st;
     st.mode = r.pick((unsigned)modes.size()); st.tol = std::pow(10.0, -r.uni(8, 10)); st.nsteps = steps_for(modes[st.mode]);
